@@ -3,6 +3,9 @@
 
     orient <nv> <nseg> a0 b0 …   `detect_orientation_issue` on the segment list (indices < nv):
                                  `err InconsistentOrientation in-boundary-inconsistency` / `ok`
+    ogrid <c> <min> <max>        sizing of `compute_overlapping_grid` along one axis without shift:
+                                 `ok <origin> <n_cells>` (model only; compared by tools/props/c16.py with
+                                 the bounding box of the map `grisubal none …` returns)
     ancinit                      the 2-D session map gets the three anchor storages (6, 7, 8)
     wanchor v|e|f <id> <A><k>    `force_write_attribute` of `VertexAnchor|EdgeAnchor|FaceAnchor`
                                  (`A` ∈ N C S B as far as the kind has the variant); reply `ok`
@@ -67,6 +70,12 @@ def topCapture (s : Sess) (toks : List String) : Option (Sess × String) :=
           else if detectOrientationIssue segs then
             some (s, "err InconsistentOrientation in-boundary-inconsistency")
           else some (s, "ok")
+      | _, _, _ => some (s, "bad-op")
+  | ["ogrid", c, mn, mx] =>
+      match parseRat c, parseRat mn, parseRat mx with
+      | some c, some mn, some mx =>
+          if c ≤ 0 then some (s, "bad-op")
+          else some (s, s!"ok {ratStr (gridOrigin mn c 0)} {gridCells mn mx c 0}")
       | _, _, _ => some (s, "bad-op")
   | ["ancinit"] =>
       if s.dim ≠ 2 then some (s, "bad-op") else
